@@ -8,33 +8,54 @@ OUTSIDE = ('more threads / operations / scheduler rounds than stated per instanc
            'counter wrap-around of the 64-bit head/tail; weak-memory reorderings; payload types other than int32 / lifetime-tracked int')
 
 
-def conc(name, cap, pow2, steps, nthreads, tiers, bounds, unwind=3, timeout=1500, **d):
+def conc(name, cap, pow2, steps, nthreads, tiers, bounds, unwind=3, timeout=1700, thorough=None, **d):
     defs = {'VF_CAP': cap, 'VF_POW2': pow2, 'VF_ELEM': 0, 'VF_PUSH': 1, 'VF_POP': 0, 'VF_A': 2, 'VF_B': 1, 'VF_C': 2,
             'VF_NCONS': 1, 'VF_BATCH': 0, 'VF_P3': 0, 'VF_PRE': 1, 'VF_DRAIN': 3}
     defs.update(d)
-    return {'name': name, 'src': 'mpmc_conc.cpp', 'engine': 'cbmc-seq', 'steps': steps, 'spin_loops': True, 'defs': defs,
-            'unwind': unwind, 'unwindset': {}, 'nthreads': nthreads, 'timeout': timeout, 'tiers': tiers, 'bounds': bounds}
+    # no loops in the harness (unrolled at compile time); 'unwind' only has to cover the real code's
+    # loops: constructor slot initialisation / destructor walk (capacity) and try_push_batch (count)
+    i = {'name': name, 'src': 'mpmc_conc.cpp', 'engine': 'cbmc-seq', 'steps': steps, 'spin_loops': True, 'defs': defs,
+         'unwind': unwind, 'nthreads': nthreads, 'timeout': timeout, 'tiers': tiers, 'bounds': bounds}
+    if thorough:
+        i['thorough'] = thorough
+    return i
 
 
+ROUNDS = ('%d scheduler rounds (every thread gets one execution segment per round, preemption before every atomic operation; '
+          'the last round is needed by the main thread\'s quiescent phase)')
 INSTANCES = [
     # push kinds per tag t: (VF_PUSH + t) % 3 (0 try_push(T&&), 1 try_emplace, 2 try_push(const T&));
     # pop kinds of the consumer's j-th pop: (VF_POP + j) % 3 (0 try_pop(T&), 1 try_pop_into, 2 try_pop())
-    conc('conc_cap2_a', 2, 'true', 4, 4, ['quick', 'thorough'],
+    conc('conc_cap2_a', 2, 'true', 3, 4, ['quick', 'thorough'],
          'capacity 2 (pow2); symbolic start offset 0..1 and optional pre-filled element; producer A: try_emplace, try_push(const T&); '
-         'producer B: try_emplace; consumer: try_pop(T&), try_pop_into; 4 scheduler rounds; then quiescent push probe + drain by main',
-         VF_PUSH=0, VF_POP=0),
-    conc('conc_cap2_b', 2, 'true', 4, 4, ['quick', 'thorough'],
+         'producer B: try_emplace; consumer: try_pop(T&), try_pop_into; then quiescent push probe + drain by main; '
+         + ROUNDS % 3 + ' (thorough: 5)',
+         VF_PUSH=0, VF_POP=0, thorough={'steps': 5}),
+    conc('conc_cap2_b', 2, 'true', 3, 4, ['quick', 'thorough'],
          'capacity 2 (pow2); symbolic start offset and pre-fill; producer A: try_push(const T&), try_push(T&&); producer B: try_push(const T&); '
-         'consumer: try_pop() (OpResult), try_pop(T&); 4 scheduler rounds; quiescent probe + drain',
-         VF_PUSH=1, VF_POP=2),
-    conc('conc_cap3_batch', 3, 'false', 4, 4, ['quick', 'thorough'],
+         'consumer: try_pop() (OpResult), try_pop(T&); quiescent probe + drain; ' + ROUNDS % 3 + ' (thorough: 5)',
+         VF_PUSH=1, VF_POP=2, thorough={'steps': 5}),
+    conc('conc_cap3_batch', 3, 'false', 3, 4, ['quick', 'thorough'],
          'capacity 3 (exact, modulo indexing); symbolic start offset 0..2 and pre-fill; producer A: try_push_batch(2 items); producer B: '
-         'try_push(T&&); consumer: try_pop_into, try_pop(); 4 scheduler rounds; quiescent probe + drain',
-         VF_PUSH=2, VF_POP=1, VF_BATCH=1, VF_DRAIN=4, unwind=4),
-    conc('conc_cap2_elem', 2, 'true', 4, 4, ['quick', 'thorough'],
-         'capacity 2; lifetime-tracked payload with scheduling points inside the payload constructors; producer A: 2 pushes, producer B: 1 push, '
-         'consumer: 2 pops; symbolic number of elements left to ~MpmcRingBuffer; 4 scheduler rounds',
-         VF_ELEM=1, VF_PUSH=0, VF_POP=2, VF_PRE=0),
+         'try_push(T&&); consumer: try_pop_into, try_pop(); quiescent probe + drain; ' + ROUNDS % 3 + ' (thorough: 5)',
+         VF_PUSH=2, VF_POP=1, VF_BATCH=1, VF_DRAIN=4, unwind=4, thorough={'steps': 5}),
+    conc('conc_cap2_elem', 2, 'true', 3, 4, ['quick', 'thorough'],
+         'capacity 2; lifetime-tracked payload (harness/common/tracked.h + per-element ledger) whose construction into / out of a slot is an '
+         'extra scheduling point; producer A: try_push(const T&), try_push(T&&); producer B: try_emplace; consumer: try_pop(), try_pop(T&); '
+         'symbolic number (0..3) of quiescent pops, the rest is left to ~MpmcRingBuffer; ' + ROUNDS % 3 + ' (thorough: 4)',
+         VF_ELEM=1, VF_PUSH=1, VF_POP=2, VF_PRE=0, thorough={'steps': 4}),
+    conc('conc_cap3_elem_batch', 3, 'false', 4, 3, ['thorough'],
+         'capacity 3 (exact); lifetime-tracked payload; producer A: try_push_batch(3 items) into a buffer with symbolic offset/pre-fill; '
+         'consumer: try_pop_into, try_pop(), try_pop(T&); elements left to the destructor; ' + ROUNDS % 4,
+         VF_ELEM=1, VF_PUSH=0, VF_POP=1, VF_BATCH=1, VF_A=3, VF_B=0, VF_C=3, VF_DRAIN=4, unwind=4),
+    conc('conc_cap4_3p2c', 4, 'true', 4, 6, ['thorough'],
+         'capacity 4; 3 producers (2+1+1 pushes, all three push kinds) and 2 consumers (2 pops each, all three pop kinds); symbolic start '
+         'offset 0..3 and pre-fill; quiescent probe + drain; ' + ROUNDS % 4,
+         VF_PUSH=0, VF_POP=0, VF_P3=1, VF_NCONS=2, VF_DRAIN=5, unwind=5),
+    conc('conc_cap2_2c_sym', 2, 'true', 5, 4, ['thorough'],
+         'capacity 2; producer A: 3 pushes, 2 consumers with 2 pops each; push and pop kinds symbolic per call; symbolic offset/pre-fill; '
+         + ROUNDS % 5,
+         VF_PUSH=9, VF_POP=9, VF_A=3, VF_B=0, VF_NCONS=2, VF_DRAIN=3),
     {'name': 'seq_cap2', 'src': 'mpmc_seq.cpp', 'engine': 'cbmc', 'defs': {'VF_CAP': 2, 'VF_POW2': 'true', 'VF_OPS': 4},
      'unwind': 7, 'timeout': 1500, 'bounds': 'capacity 2; 4 symbolic operations from 6 kinds against a reference FIFO; lifetime-tracked payload',
      'thorough': {'defs': {'VF_CAP': 2, 'VF_POW2': 'true', 'VF_OPS': 6}, 'unwind': 8}},
